@@ -240,6 +240,15 @@ func runProducers(c *Ctx, P string, orc outOracle) {
 			}
 		}
 	})
+	ifs := indexedFormats(true)
+	c.Section(P+"/indexed", map[string]interface{}{"formats": len(ifs), "arg_lists": 2}, len(ifs), func(i int, w *Worker) {
+		for _, ai := range []int{1, 4} {
+			w.Eval()
+			if dt := produceFmt(ifs[i], al[ai], orc, w.SeenB); dt != "" {
+				fail(w, "program", map[string]interface{}{"F": []byte(ifs[i]), "A": ai, "quoted": q(ifs[i])}, dt)
+			}
+		}
+	})
 	c.Section(P+"/formats-2byte", map[string]interface{}{"formats": "all 1- and 2-byte strings and '%' + all 2-byte strings", "arg_lists": 2}, 65536, func(i int, w *Worker) {
 		b0, b1 := byte(i>>8), byte(i)
 		fs := []string{string([]byte{b0, b1}), "%" + string([]byte{b0, b1})}
@@ -263,7 +272,7 @@ func runProducers(c *Ctx, P string, orc outOracle) {
 		json.Unmarshal(raw, &cs)
 		return produceFmt(string(cs.F), producerArgLists()[cs.A], orc, nil)
 	}
-	replayers[P+"/programs"], replayers[P+"/formats-2byte"] = rp, rp
+	replayers[P+"/programs"], replayers[P+"/formats-2byte"], replayers[P+"/indexed"] = rp, rp, rp
 	// (d) EscapeBytes / single ManualBuffer writes over all byte strings
 	n := 5
 	if !c.Quick() {
